@@ -35,6 +35,26 @@ def generate(seed, tier):
                     "merges": ("none", "none", "default", "optimize", "custom")},
         cfg_kwargs={"want": want}, nkeys=(400 if big else 12))
     rec["copy_to_ram"] = r.random() < 0.5
+    if "crb" in rec["config"]["fields"] and r.random() < 0.5:
+        # the reference column switches from 1-byte to 2-byte references at 256 distinct values:
+        # one transaction crosses that threshold, with documents lacking the field before and after it
+        from whoosim.session import cfg_from_record
+        from whoosim.workload import DocGen
+        br = random.Random("%s/bulk" % seed)
+        dg = DocGen(cfg_from_record(rec["config"]), br, nkeys=12)
+        dg.next_uid = 100000
+        bulk = [["writer", {}]]
+        for i in range(br.randint(262, 330)):
+            d = dg.doc(fields_subset=["crb", "crf"], sparse_p=0.0)
+            d["t"] = d["t"].split(" ")[0] if d.get("t") else u"x"
+            if br.random() < 0.12:
+                d.pop("crb", None)
+            else:
+                d["crb"] = (u"v%04d" % i).encode()
+            bulk.append(["add", d])
+        bulk.append(["commit", {"merge": br.choice(("none", "default", "optimize"))}])
+        pos = 0 if br.random() < 0.5 else len(rec["ops"])
+        rec["ops"] = rec["ops"][:pos] + bulk + rec["ops"][pos:]
     return rec
 
 
